@@ -282,6 +282,7 @@ struct Running {
 /// Run all cases of a check in worker processes, merge, write evidence, print verdict.
 /// Returns the process exit code.
 pub fn drive(spec: &CheckSpec, tier: &str) -> i32 {
+	crate::node::gc_stale_scratch();
 	let t0 = Instant::now();
 	let base_seed = env_seed();
 	let jobs = env_jobs();
